@@ -7,14 +7,16 @@ import random
 
 import common as C
 
-CONFIGS_QUICK = [(2, 2, 0), (4, 4, 0), (1, 2, 0), (2, 4, 1), (2, 64, 0), (4, 1024, 1)]       # (S, M, TMOVE); large M: the lock array grows with the table
-CONFIGS_THOROUGH = [(S, M, tm) for S in (1, 2, 4, 8) for M in (2, 4, 8, 256, 65536) for tm in (0, 1)]
+# (S, M, TMOVE, BYVAL); large M: the lock array grows with the table; BYVAL: the hash functor takes key_type by value
+CONFIGS_QUICK = [(2, 2, 0, 0), (4, 4, 0, 0), (1, 2, 0, 0), (2, 4, 1, 0), (2, 64, 0, 0), (4, 1024, 1, 0), (2, 4, 0, 1)]
+CONFIGS_THOROUGH = [(S, M, tm, 0) for S in (1, 2, 4, 8) for M in (2, 4, 8, 256, 65536) for tm in (0, 1)] + \
+                   [(S, M, tm, 1) for S in (1, 4) for M in (2, 8) for tm in (0, 1)]
 
 
-def harness_for(S, M, tm):
+def harness_for(S, M, tm, byval=0):
     flags = ["-O1", "-g", "-fsanitize=address,undefined", "-fno-sanitize-recover=all", "-DVH_S=%d" % S, "-DVH_TMOVE=%d" % tm,
-             "-DLIBCUCKOO_VERIF_MAX_NUM_LOCKS=%d" % M]
-    return C.build_harness("k5-S%d-M%d-T%d" % (S, M, tm), "k5_fault.cc", flags)
+             "-DLIBCUCKOO_VERIF_MAX_NUM_LOCKS=%d" % M] + (["-DVH_BYVAL=1"] if byval else [])
+    return C.build_harness("k5-S%d-M%d-T%d%s" % (S, M, tm, "-BV" if byval else ""), "k5_fault.cc", flags)
 
 
 def scenario(rng, S, M, hashmode, nsweeps, workers=0):
@@ -175,7 +177,7 @@ def explore(tier, seed):
     for c in cfgs:
         ok, exe, log = bins[c]
         if not ok:
-            out["build_errors"].append({"config": "S=%d M=%d TMOVE=%d" % c, "log": log[-2500:]})
+            out["build_errors"].append({"config": "S=%d M=%d TMOVE=%d BYVAL=%d" % c, "log": log[-2500:]})
             continue
         for hm in (0, 2, 3, 4, 5):
             for _ in range(nscen if hm in (0, 4) else 1):
@@ -195,7 +197,7 @@ def explore(tier, seed):
             out["scenarios"] += 1
             out["requests"] += len(lines)
             if not out["samples"]:
-                out["samples"].append({"config": "S=%d M=%d TMOVE=%d hash=%d" % (c + (hm,)), "requests": lines[:25]})
+                out["samples"].append({"config": "S=%d M=%d TMOVE=%d BYVAL=%d hash=%d" % (c + (hm,)), "requests": lines[:25]})
             for li, lo in zip(lines, res):
                 if li.replace("ifpending ", "").split()[0] in ("sweep", "ltsweep", "ctorsweep", "thrsweep", "ltthrsweep"):
                     out["sweeps"] += 1
@@ -211,10 +213,10 @@ def explore(tier, seed):
                             pass
                 cl = classify(li, lo)
                 if cl:
-                    out["findings"].append({"properties": sorted(cl[0]), "config": "S=%d M=%d TMOVE=%d hash=%d" % (c + (hm,)),
+                    out["findings"].append({"properties": sorted(cl[0]), "config": "S=%d M=%d TMOVE=%d BYVAL=%d hash=%d" % (c + (hm,)),
                                             "request": li, "answer": lo, "prefix": lines[:lines.index(li) + 1] if li in lines else lines})
             if rc != 0 or len(res) < len(lines):
                 at = lines[len(res)] if len(res) < len(lines) else "<end>"
-                out["crashes"].append({"config": "S=%d M=%d TMOVE=%d hash=%d" % (c + (hm,)), "rc": rc, "at_request": at,
+                out["crashes"].append({"config": "S=%d M=%d TMOVE=%d BYVAL=%d hash=%d" % (c + (hm,)), "rc": rc, "at_request": at,
                                        "tail": "\n".join(res[-6:])[-1500:], "prefix": lines[:len(res) + 1]})
     return out
